@@ -221,6 +221,9 @@ impl WalManager {
                 if matches!(record, WalRecord::TxCommit { .. }) {
                     log_file.writer.flush()?;
                     log_file.writer.get_ref().sync_all()?;
+                    // verif-hooks (H2): the log file is durable up to `size` bytes at this instant
+                    #[cfg(feature = "verif-hooks")]
+                    grafeo_common::verif_hooks::io_event("wal.sync", &log_file.path, log_file.size);
                     self.records_since_sync.store(0, Ordering::Relaxed);
                     *self.last_sync.lock() = Instant::now();
                 }
@@ -235,6 +238,9 @@ impl WalManager {
                 if records >= *max_records || elapsed >= Duration::from_millis(*max_delay_ms) {
                     log_file.writer.flush()?;
                     log_file.writer.get_ref().sync_all()?;
+                    // verif-hooks (H2): the log file is durable up to `size` bytes at this instant
+                    #[cfg(feature = "verif-hooks")]
+                    grafeo_common::verif_hooks::io_event("wal.sync", &log_file.path, log_file.size);
                     self.records_since_sync.store(0, Ordering::Relaxed);
                     *self.last_sync.lock() = Instant::now();
                 }
@@ -320,9 +326,15 @@ impl WalManager {
         file.write_all(&data)?;
         file.sync_all()?;
         drop(file);
+        // verif-hooks (H2): checkpoint temp file written and synced, not yet renamed
+        #[cfg(feature = "verif-hooks")]
+        grafeo_common::verif_hooks::io_event("wal.checkpoint.tmp_written", &temp_path, data.len() as u64);
 
         // Atomic rename
         fs::rename(&temp_path, &metadata_path)?;
+        // verif-hooks (H2): checkpoint metadata renamed into place
+        #[cfg(feature = "verif-hooks")]
+        grafeo_common::verif_hooks::io_event("wal.checkpoint.renamed", &metadata_path, data.len() as u64);
 
         Ok(())
     }
@@ -363,6 +375,9 @@ impl WalManager {
             .read(true)
             .append(true)
             .open(&new_path)?;
+        // verif-hooks (H2): a freshly rotated (empty) log file exists; the old one has not been dropped yet
+        #[cfg(feature = "verif-hooks")]
+        grafeo_common::verif_hooks::io_event("wal.rotate.created", &new_path, 0);
 
         let new_log = LogFile {
             writer: BufWriter::new(file),
@@ -405,6 +420,9 @@ impl WalManager {
         if let Some(log_file) = guard.as_mut() {
             log_file.writer.flush()?;
             log_file.writer.get_ref().sync_all()?;
+            // verif-hooks (H2): the log file is durable up to `size` bytes at this instant
+            #[cfg(feature = "verif-hooks")]
+            grafeo_common::verif_hooks::io_event("wal.sync", &log_file.path, log_file.size);
         }
         self.records_since_sync.store(0, Ordering::Relaxed);
         *self.last_sync.lock() = Instant::now();
